@@ -46,3 +46,15 @@ package base
 //@   ensures [majority-complete] forall(i, 0 <= i && i < len(set) && old(set[i]) >= minu(threshold, quorum) ==> r0 >= 0)
 //@   ensures [draw-sound] r0 == -2 ==> forall(i, 0 <= i && i < len(set) ==> old(set[i]) + missing(quorum, total(old(elems(set)), soff(set), len(set))) < minu(threshold, quorum))
 //@   ensures [draw-complete] len(set) > 0 && forall(i, 0 <= i && i < len(set) ==> old(set[i]) + missing(quorum, total(old(elems(set)), soff(set), len(set))) < minu(threshold, quorum)) ==> r0 == -2
+
+// ---- C02: required vote count = ceil(n*t/100), exactly ----------------------------
+
+// t is a one-decimal threshold 51.0 .. 100.0: one of the float64 values
+// strconv.ParseFloat returns for those texts (decimal1); t10 is 10*t exactly.
+//@ func (Threshold).Threshold
+//@   prop C02
+//@   opt cases decimal1 t 510 1000
+//@   requires decimal1(t, 510, 1000)
+//@   requires 1 <= quorum && quorum <= 4294967296
+//@   ensures [ceil-upper] r0 * 1000 >= quorum * decimal1val(t, 510, 1000)
+//@   ensures [ceil-least] (r0 - 1) * 1000 < quorum * decimal1val(t, 510, 1000)
